@@ -1403,7 +1403,7 @@ func mentionsOutside(t *Term, s string, cut ssa.Value) bool {
 
 func runC16(c *Ctx) {
 	p, r := c.P, c.R
-	r.Explanation = "Decides the key-selection and framing clauses: encrypt() encrypts exactly its data argument with the per-event wrapper option when present, else the filter's wrapper, and returns \"encrypted:\" + RawURL base64 of the marshalled blob; hmacSha256() derives a 32-byte key with NewDerivedReader(ctx, w, 32, salt, info) where w / salt / info are each the per-event option when non-nil else the filter's field (not swapped), MACs exactly its data argument with HMAC(SHA-256, key) and returns \"hmac-sha256:\" + RawURL base64; Process derives the per-event wrapper from NewEventWrapper(ctx, ef.Wrapper, EventId()) under the lock and hands the three per-event options to every value operation; all reads of Wrapper/HmacSalt/HmacInfo and the cryptographic call lie in one critical section, and Rotate / rotation payloads write them under the write lock (copying salt and info). Decrypt round-trip, HKDF and AEAD correctness are third-party semantics and not decided. Also the derivation shape: NewDerivedReader = LimitedReader{hkdf.New(sha256.New, checked key bytes of the wrapper argument, salt, info), lenLimit}; NewEventWrapper = aead wrapper keyed with ed25519.GenerateKey(NewDerivedReader(ctx, wrapper, >=32, f(eventId), g(eventId))) with every step checked, so the per-event key is a function of (wrapper key, event id) only. C16.forward: every walker hands its own options on. C16.event snapshot: an event with its own wrapper uses salt and info taken together with that wrapper. C16.raw: a value reached through a pointer tag is turned into bytes only by identity-preserving conversions. C16.atomic store-then-error: a rotation that returns an error has replaced none of Wrapper, HmacSalt, HmacInfo. C16.atomic rotation-applied: key material a rotation brings is stored on every successful path. C16.event snapshot-non-nil: the snapshot of the filter's salt / info handed on as the per-event option is non-nil even when the filter has none. C16.derive key-handed-over: the slice handed to the AEAD wrapper is never written in place afterwards. C16.atomic who-may-rotate: only Rotate and the rotation arm store the key material. C16.atomic cannot-refuse: Rotate has no result and the rotation arm of Process returns a nil error on every path (a rotation is applied, never refused)."
+	r.Explanation = "Decides the key-selection and framing clauses: encrypt() encrypts exactly its data argument with the per-event wrapper option when present, else the filter's wrapper, and returns \"encrypted:\" + RawURL base64 of the marshalled blob; hmacSha256() derives a 32-byte key with NewDerivedReader(ctx, w, 32, salt, info) where w / salt / info are each the per-event option when non-nil else the filter's field (not swapped), MACs exactly its data argument with HMAC(SHA-256, key) and returns \"hmac-sha256:\" + RawURL base64; Process derives the per-event wrapper from NewEventWrapper(ctx, ef.Wrapper, EventId()) under the lock and hands the three per-event options to every value operation; all reads of Wrapper/HmacSalt/HmacInfo and the cryptographic call lie in one critical section, and Rotate / rotation payloads write them under the write lock (copying salt and info). Decrypt round-trip, HKDF and AEAD correctness are third-party semantics and not decided. Also the derivation shape: NewDerivedReader = LimitedReader{hkdf.New(sha256.New, checked key bytes of the wrapper argument, salt, info), lenLimit}; NewEventWrapper = aead wrapper keyed with ed25519.GenerateKey(NewDerivedReader(ctx, wrapper, >=32, f(eventId), g(eventId))) with every step checked, so the per-event key is a function of (wrapper key, event id) only. C16.forward: every walker hands its own options on. C16.event snapshot: an event with its own wrapper uses salt and info taken together with that wrapper. C16.raw: a value reached through a pointer tag is turned into bytes only by identity-preserving conversions. C16.atomic store-then-error: a rotation that returns an error has replaced none of Wrapper, HmacSalt, HmacInfo. C16.atomic rotation-applied: key material a rotation brings is stored on every successful path. C16.event snapshot-non-nil: the snapshot of the filter's salt / info handed on as the per-event option is non-nil even when the filter has none. C16.derive key-handed-over: the slice handed to the AEAD wrapper is never written in place afterwards. C16.atomic who-may-rotate: only Rotate and the rotation arm store the key material. C16.atomic cannot-refuse: Rotate has no result and the rotation arm of Process returns a nil error on every path (a rotation is applied, never refused). C16.mac mac-private: the hash made by hmac.New for a value is used for one Write(data) and Sum only."
 	r.NotDecided = []string{"decrypt round-trip and HKDF/AEAD correctness (go-kms-wrapping, x/crypto)", "determinism of derived wrappers beyond the arguments passed"}
 	c.lockControls()
 	must := c.MustLocks()
@@ -1600,6 +1600,7 @@ func runC16(c *Ctx) {
 	r.Floor("C16.atomic", 6)
 	c.ruleRotationApplies("C16.atomic")
 	c.ruleKeyWriters("C16.atomic")
+	c.ruleMacPrivate("C16.mac")
 	for _, name := range []string{"Rotate", "Process"} {
 		c.ruleRejectLeavesState("C16.atomic", c.Fn("C16.atomic", PkgEncrypt, "Filter", name), "encrypt.Filter", []string{"Wrapper", "HmacSalt", "HmacInfo"})
 	}
